@@ -200,8 +200,8 @@ def resPure (cfg : Config) : Expr → Bool
       (selected cfg "Compare" "left" l || resPure cfg l) && resKids cfg "Compare" "comparators" rs
         && ops.length == rs.length && ops.length == 1
   | .seq _ .set es _ => resKids cfg "Set" "elts" es && es.all (!isWrapperB ·)
-  | .seq _ .tuple es c => (if c == .store then pureEs es else resKids cfg "Tuple" "elts" es) && es.all (!isWrapperB ·)
-  | .seq _ .list es c => (if c == .store then pureEs es else resKids cfg "List" "elts" es) && es.all (!isWrapperB ·)
+  | .seq _ .tuple es c => c != .store && resKids cfg "Tuple" "elts" es && es.all (!isWrapperB ·)
+  | .seq _ .list es c => c != .store && resKids cfg "List" "elts" es && es.all (!isWrapperB ·)
   | .lambda .. => true
   | .boolop _ _ vs => pureEs vs
   | .ifexp _ t b e => pureE t && pureE b && pureE e
@@ -615,8 +615,11 @@ open Malt.Py
 
 /-! ### The hypothesis of `C18_sem_partial` (stricter than `hazards = []`)
 For every node and every operand `cᵢ`: either no later operand is overtaken by anything (`notMoved`: visiting
-it creates no statement, and it is hoisted only if `cᵢ` is), or `cᵢ` is an *atom that stays in place* — a
-variable or an unselected constant — which no later operand rebinds. -/
+it creates no statement, and it is hoisted only if `cᵢ` is), or what is left of `cᵢ` after the visit is *pure*
+(`resPure`: no call and no `:=` remains in place — variables, constants, attribute / item loads, operators,
+displays of such) and no later operand rebinds a variable `cᵢ` mentions.  This is the negation of the classes
+`operand_effect_reordered_after_later_operand` / `name_read_reordered_after_rebinding_operand`, except that the
+classifier also tolerates an effectful `cᵢ` overtaken by a *pure* later operand (not proved). -/
 def atomStay (cfg : Config) (pk fld : String) : Expr → Bool
   | .name i s c => okChild cfg pk fld (.name i s c)
   | .const i k r => okChild cfg pk fld (.const i k r)
@@ -627,7 +630,7 @@ def notMoved (cfg : Config) (pk : String) (hoistedI : Bool) (kj : String × Expr
 
 def pairOkT (cfg : Config) (pk : String) (ki : String × Expr) (rest : List (String × Expr)) : Bool :=
   rest.all (notMoved cfg pk (!okChild cfg pk ki.1 ki.2))
-    || (atomStay cfg pk ki.1 ki.2 && disjoint (namesE ki.2) (writesEs (rest.map (·.2))))
+    || (resPure cfg ki.2 && disjoint (namesE ki.2) (writesEs (rest.map (·.2))))
 
 def pairsOkT (cfg : Config) (pk : String) : List (String × Expr) → Bool
   | [] => true
@@ -672,14 +675,38 @@ def isSingleName : List Expr → Bool
   | [t] => isNameT t
   | _ => false
 
+/-- assignment targets of the fragment: a variable, `o.a`, `o[s]` (object / index in the expression fragment),
+or a tuple / list of variables -/
+def tgtOk : Expr → Bool
+  | .name .. => true
+  | .attr _ o _ _ => fragE o
+  | .subscript _ o s _ => fragE o && fragE s
+  | .seq _ k es c => k != .set && c == .store && es.all isNameT
+  | _ => false
+
+/-- parameters without defaults and annotations -/
+def plainParams : Expr → Bool
+  | .arguments _ po ar va ko kd kw df =>
+      df.isEmpty && kd.all (fun e => match e with | .noneMarker => true | _ => false)
+        && (po ++ ar ++ va ++ ko ++ kw).all (fun a => match a with | .arg _ _ an => an.isEmpty | _ => false)
+  | _ => false
+
 mutual
 def fragS (cfg : Config) : Stmt → Bool
-  | .assign _ ts v => isSingleName ts && fragE v && okT cfg v
+  -- `ts = v`: the targets need no statement (else: class `store_target_evaluated_before_value`)
+  | .assign _ ts v => !ts.isEmpty && ts.all tgtOk && quiets cfg ts && fragE v && okT cfg v
+  -- `x op= v`: `v` must not rebind `x` (else: class `name_read_reordered_after_rebinding_operand`)
+  | .augAssign _ (.name _ x _) _ v => fragE v && okT cfg v && !(writesE v).contains x
   | .expr _ v => fragE v && okT cfg v
   | .ret _ vs => (match vs with | [] => true | [v] => fragE v && okT cfg v | _ => false)
+  | .raise _ exc cause => (match exc with | [e] => fragE e && okT cfg e | _ => false) && cause.isEmpty
   | .if_ _ t b e => fragE t && okT cfg t && fragSs cfg b && fragSs cfg e
   | .for_ _ tg it b e _ isAsync => isNameT tg && !isAsync && fragE it && okT cfg it && fragSs cfg b && fragSs cfg e
   | .try_ _ b hs e f => fragSs cfg b && fragHs cfg hs && fragSs cfg e && fragSs cfg f
+  -- a nested `def` without defaults / annotations / decorators whose body is in the fragment
+  | .functionDef _ _ as b ds rs _ => plainParams as && quiet cfg as && ds.isEmpty && rs.isEmpty && fragSs cfg b
+  | .global .. => true
+  | .nonlocal .. => true
   | .pass _ => true
   | .break_ _ => true
   | .continue_ _ => true
@@ -694,9 +721,10 @@ def fragHs (cfg : Config) : List Stmt → Bool
   | _ :: _ => false
 end
 
-/-- `def f(params): body` without defaults, annotations, decorators; body in the fragment. -/
+/-- `def f(params): body`: parameters, decorators and return annotation need no statement (decorators are not
+part of what `runFn` executes); body in the fragment. -/
 def fragFn (cfg : Config) : Stmt → Bool
-  | .functionDef _ _ as b ds rs _ => quiet cfg as && ds.isEmpty && rs.isEmpty && fragSs cfg b
+  | .functionDef _ _ as b ds rs _ => quiet cfg as && quiets cfg ds && quiets cfg rs && fragSs cfg b
   | _ => false
 
 end Malt.Anf
